@@ -408,7 +408,14 @@ def operator_pool():
             ('PartialDerivative', lambda: odl.PartialDerivative(X, 0)), ('Gradient', lambda: odl.Gradient(X)), ('Divergence', lambda: odl.Divergence(range=X)), ('Laplacian', lambda: odl.Laplacian(X)),
             ('ResizingOperator', lambda: odl.ResizingOperator(X, ran_shp=(5, 6))), ('Resampling', lambda: odl.Resampling(X, odl.uniform_discr([0, 0], [1, 2], (6, 3)), 'linear')),
             ('RealPart', lambda: odl.RealPart(odl.cn(3))), ('ImagPart', lambda: odl.ImagPart(odl.cn(3))), ('ComplexEmbedding', lambda: odl.ComplexEmbedding(r3)), ('ComplexModulus', lambda: odl.ComplexModulus(odl.cn(3))),
-            ('IdentityOperator', lambda: odl.IdentityOperator(r3)), ('PowerOperator', lambda: odl.PowerOperator(r3, 2)), ('InnerProductOperator', lambda: odl.InnerProductOperator(r3.one()))]
+            ('IdentityOperator', lambda: odl.IdentityOperator(r3)), ('PowerOperator', lambda: odl.PowerOperator(r3, 2)), ('InnerProductOperator', lambda: odl.InnerProductOperator(r3.one())),
+            ('MultiplyOperator(element)', lambda: odl.MultiplyOperator(r3.element([1.0, -2.0, 0.5]))), ('MultiplyOperator(scalar)', lambda: odl.MultiplyOperator(2.5, domain=r3, range=r3)),
+            ('MultiplyOperator(array)', lambda: odl.MultiplyOperator(np.array([1.0, -2.0, 0.5]), domain=r3, range=r3)),
+            ('MultiplyOperator(base-space field on a power space)', lambda: odl.MultiplyOperator(X.element(np.arange(12.0).reshape(3, 4) - 5.0), domain=X ** 2, range=X ** 2)),
+            ('MultiplyOperator(base-space field).adjoint', lambda: odl.MultiplyOperator(X.element(np.arange(12.0).reshape(3, 4) - 5.0), domain=X ** 2, range=X ** 2).adjoint),
+            ('OperatorRightScalarMult(Laplacian)', lambda: odl.operator.operator.OperatorRightScalarMult(odl.Laplacian(X, pad_mode='symmetric'), 2.0)),
+            ('ScalingOperator', lambda: odl.ScalingOperator(X, 3.0)), ('ZeroOperator', lambda: odl.ZeroOperator(r3)), ('ConstantOperator', lambda: odl.ConstantOperator(r3.one())),
+            ('LinCombOperator', lambda: odl.LinCombOperator(r3, 2.0, -1.5))]
     from odl.ufunc_ops import ufunc_ops as U
     for name in ('sin', 'exp', 'absolute', 'sign', 'square', 'negative', 'modf', 'add', 'maximum', 'arctan2', 'frexp' if hasattr(odl.ufunc_ops, 'frexp') else 'cos'):
         if hasattr(odl.ufunc_ops, name):
